@@ -21,6 +21,13 @@ ResOK(r) ==
          [] r.k = "indset" -> IndSetCardOK(n, E, r.card)
          [] r.k = "flow" -> r.flow = MaxFlow(n, E, r.src, r.sink)
          [] r.k = "mcm" -> r.card = MaxMatching(n, E)
+         \* distributed applications: the complete per-node output of all hosts, in global id order
+         [] r.k = "dist" ->
+              /\ Len(r.vals) = n
+              /\ CASE r.kind \in {"bfs", "sssp"} -> LET D == TLCEval(Dist(n, E, r.kind = "bfs", r.src)) IN \A v \in Nodes(n) : r.vals[v + 1] = D[v]
+                   [] r.kind = "cc" -> LET L == Label(n, E) IN \A u, v \in Nodes(n) : (r.vals[u + 1] = r.vals[v + 1]) = (L[u] = L[v])
+                   [] r.kind = "kcore" -> {v \in Nodes(n) : r.vals[v + 1] = 1} = Peel(n, E, r.kk, Nodes(n))
+                   [] OTHER -> FALSE
          [] OTHER -> FALSE
 Init == l = 1 /\ n = 0 /\ E = <<>>
 Next == /\ l <= Len(Tr) /\ l' = l + 1
